@@ -39,6 +39,76 @@ def cases(dim, s1, s2, r):
     return out
 
 
+TOLS = [(1e-05, 1e-08), (1e-3, 0.0), (0.0, 1e-3), (0.25, 1e-9), (1e-9, 0.25)]
+
+
+def isclose_cases(dim, sig, r):
+    """same-system operands for the coordinate-wise definition of isclose: [(a, b, rtol, atol, expected)] with
+    |a_j - b_j| placed on either side of atol + rtol*|b_j| for ONE coordinate j, at three magnitudes, so that exchanging the two
+    tolerances, dropping one of them or scaling by |a| instead of |b| changes some answer"""
+    out = []
+    pts = C.strata_points(dim, r, n_random=1)[:3]
+    for p, scale in zip(pts, (1.0, 300.0, 0.004)):
+        q = [x * scale for x in p]
+        if dim == 4:
+            q[3] = abs(q[3]) + 4.0 * scale
+        a0 = C.cart_to_stored(sig, q)
+        for rtol, atol in TOLS:
+            for j in range(len(a0)):
+                for frac in (0.4, 2.5):
+                    b = list(a0)
+                    a = list(a0)
+                    thr = atol + rtol * abs(b[j])
+                    a[j] = b[j] + frac * thr
+                    want = all(abs(x - y) <= atol + rtol * abs(y) for x, y in zip(a, b))
+                    out.append((a, b, rtol, atol, want))
+    return out
+
+
+def isclose_definition(ctx, r, dis, fails, sigs=None):
+    """isclose(a, b, rtol, atol) on same-system operands == all_j |a_j - b_j| <= atol + rtol*|b_j|, every same-system key, on the
+    object, NumPy and Awkward backends (methods) and numpy.isclose on NumPy arrays"""
+    n = 0
+    for dim in (2, 3, 4):
+        for sig in C.SIGS[dim]:
+            cs = isclose_cases(dim, sig, r)
+            for (rtol, atol) in TOLS:
+                sub = [c for c in cs if (c[2], c[3]) == (rtol, atol)]
+                A, B, W = [c[0] for c in sub], [c[1] for c in sub], [c[4] for c in sub]
+                got = {"obj.method": [bool(C.obj_vec("g", sig, a).isclose(C.obj_vec("m", sig, b), rtol=rtol, atol=atol)) for a, b in zip(A, B)]}
+                na, nb = C.np_array("g", sig, A), C.np_array("g", sig, B)
+                got["np.method"] = tolist(na.isclose(nb, rtol=rtol, atol=atol))
+                got["np.numpy"] = tolist(numpy.isclose(na, nb, rtol=rtol, atol=atol))
+                aa, ab = C.ak_array("m", sig, A), C.ak_array("m", sig, B)
+                got["ak.method"] = tolist(aa.isclose(ab, rtol=rtol, atol=atol))
+                n += 4 * len(sub)
+                for form, vals in got.items():
+                    if vals != W:
+                        i = [x != y for x, y in zip(vals, W)].index(True)
+                        key = f"isclose-definition:{form}:{','.join(sig)}"
+                        if not any(f and f["key"] == key for f in fails):
+                            dis.append(f"isclose {','.join(sig)} {form} rtol={rtol} atol={atol}: returns {vals[i]} for stored {A[i]} vs {B[i]}, "
+                                       f"the coordinate-wise definition gives {W[i]}")
+                            fails.append({"key": key, "what": dis[-1], "code": isclose_replay(sig, A[i], B[i], rtol, atol, W[i])})
+    return n
+
+
+def isclose_replay(sig, a, b, rtol, atol, want):
+    return f"""
+import vector, numpy
+import sys; sys.path.insert(0, {C.VERIF!r})
+from harness import common as C
+a, b, rtol, atol = {a!r}, {b!r}, {rtol!r}, {atol!r}
+want = all(abs(x - y) <= atol + rtol * abs(y) for x, y in zip(a, b))
+u, v = C.obj_vec("g", {sig!r}, a), C.obj_vec("m", {sig!r}, b)
+assert bool(u.isclose(v, rtol=rtol, atol=atol)) == want, f"object isclose is {{not want}}, every stored coordinate within atol + rtol*|other|: {{want}}"
+na, nb = C.np_array("g", {sig!r}, [a]), C.np_array("g", {sig!r}, [b])
+assert bool(na.isclose(nb, rtol=rtol, atol=atol)[0]) == want and bool(numpy.isclose(na, nb, rtol=rtol, atol=atol)[0]) == want, "NumPy isclose"
+aa, ab = C.ak_array("m", {sig!r}, [a]), C.ak_array("m", {sig!r}, [b])
+assert bool(aa.isclose(ab, rtol=rtol, atol=atol)[0]) == want, "Awkward isclose"
+"""
+
+
 def tolist(x):
     try:
         import awkward as ak
@@ -114,6 +184,8 @@ def correspondence(ctx):
             if len(samples) < 3:
                 samples.append({"dim": dim, "key": key, "flavors": f1 + f2, "case": cs[1][0], "a": A[1], "b": B[1],
                                 "==": bool(forms["eq"]["obj.method"][1]), "!=": bool(forms["ne"]["obj.method"][1])})
+    n_def = isclose_definition(ctx, r, dis, fails)
+    n_calls += n_def
     ans = leanio.eval_float(reqs)
     for (op, key, tag, real, want), got in zip(expect, ans):
         if got[0] != "b":
@@ -122,7 +194,7 @@ def correspondence(ctx):
             dis.append(f"{op} {key} case {tag}: real={real} lean-model={got[1]} expected={want}")
     return {"ok": not dis, "disagreements": dis, "failing_inputs": [f for f in fails if f][:5],
             "stats": {"traces_validated_against_impl": len(reqs), "public_calls": n_calls, "case_distribution": dist,
-                      "model_requests": len(reqs)},
+                      "model_requests": len(reqs), "isclose_definition_calls": n_def},
             "samples": samples}
 
 
@@ -150,6 +222,8 @@ def search(ctx, broken):
     isclose reflexive / implied by == / monotone"""
     r = C.rng(ctx.seed, "c12-search")
     out = []
+    dis_ = []
+    isclose_definition(ctx, r, dis_, out)
     for dim in (2, 3, 4):
         for s1, s2 in itertools.product(C.SIGS[dim], repeat=2):
             for tag, a, b, _ in cases(dim, s1, s2, r):
